@@ -281,6 +281,34 @@ def r4_let_chain(src, item, ed, opts):
         ed.count("R4")
 
 
+def r44_guard_continue(src, item, ed, opts):
+    """guard clause in a loop body: `if C { continue; } REST` (a direct statement of the body, no else, the
+    block is nothing but `continue;`) -> `if C { } else { REST }`.  The same control flow; what the sidecar
+    says about the end of the body (body_end hints, the invariant) is then said on both paths, and Verus'
+    `for` (which has no `continue`) accepts the loop."""
+    blocks = {tuple(b["range"]): b for b in nodes_of(item, "stmts_block")}
+    ifs = {tuple(n["range"]): n for n in nodes_of(item, "if")}
+    for lp in nodes_of(item, "loop"):
+        if lp.get("label"):
+            continue
+        b = blocks.get(tuple(lp["body"]))
+        if not b:
+            continue
+        stmts = b["stmts"]
+        for k, st in enumerate(stmts[:-1]):
+            n = ifs.get(tuple(st))
+            if n is None:
+                # `if ... {}` followed by `;`
+                n = next((x for r_, x in ifs.items() if r_[0] == st[0] and st[1] - r_[1] <= 1), None)
+            if n is None or "else" in n or n.get("chain"):
+                continue
+            if re.sub(r"\s+", "", src.text(*n["then"])) not in ("{continue;}", "{continue}"):
+                continue
+            ed.replace(n["then"][0], n["then"][1], "{ } else {", "R44")
+            ed.insert(lp["body"][1] - 1, " }", "R44", prio=-10)
+            ed.count("R44")
+
+
 def r9_visibility(src, item, ed, opts):
     v = item.get("vis")
     if v:
@@ -1190,6 +1218,7 @@ RULES = {
     "R40": r40_and_then,
     "R41": r41_map_collect,
     "R43": r43_vec_literal,
+    "R44": r44_guard_continue,
     "R24": r24_call_shim,
 }
 
